@@ -271,14 +271,19 @@ def _untraced(fn: Any) -> Any:
         return fn()
 
 
-def _native_starts(elems: List[Any]) -> List[int]:
+def _native_starts(elems: List[Any]) -> Optional[List[int]]:
     """Concrete start offsets of a fixed layout (computed outside the tracer)."""
 
-    def go() -> List[int]:
+    def go() -> Optional[List[int]]:
         out, pos = [], 0
         for e in elems:
             out.append(pos)
-            pos += e.width if isinstance(e, wire.Tok) else bytes.__len__(e)
+            if isinstance(e, wire.Tok):
+                pos += e.width
+            elif type(e) is bytes:
+                pos += len(e)
+            else:
+                return None  # an engine-level bytes value (e.g. text encoded while tracing): general path
         out.append(pos)
         return out
 
@@ -345,10 +350,11 @@ class SymPacket:
             # every element has a concrete width: fork once on the value of a symbolic offset (at most
             # `length` values) instead of deciding one comparison per element with the solver
             off = concretize(off)
-            hit = _native_locate(self._cstarts, self.elems, off)
-            if hit is None:
-                raise IndexError('index out of range')
-            return hit
+            if self._cstarts is not None:
+                hit = _native_locate(self._cstarts, self.elems, off)
+                if hit is None:
+                    raise IndexError('index out of range')
+                return hit
         for i, e in enumerate(self.elems):
             n = elem_len(e)
             if self.starts[i] <= off and off < self.starts[i] + n:
